@@ -1,7 +1,7 @@
 """C08 — any well-formed third-party tape is read exactly; list and extract agree"""
 import os
 
-from framework import CaseResult, text_points
+from framework import scale, CaseResult, text_points
 from props.tapecommon import CaseDir, gen_content, materialize, model_outcome, run_tool, status_class
 
 GEN_FILES = ["GenTape"]
@@ -77,7 +77,7 @@ def write_tape(case):
 
 
 def gen_cases(rng, tier):
-    n = 250 if tier == "quick" else 5000
+    n = scale(tier, 250, 5000)
     return [gen_case(rng) for _ in range(n)], {"random": n}
 
 
